@@ -37,6 +37,7 @@ type syncRun struct {
 	p2pD    uint64
 	loops   int
 	placed  map[string]bool // "hdr/3": the item is on the DA layer or in the P2P store (a persistent source)
+	onP2P   map[string]bool
 }
 
 func evKey(kind string, h uint64) string { return fmt.Sprintf("%s/%d", kind, h) }
@@ -88,6 +89,7 @@ func (s *syncRun) buildChain(shape [][]string) {
 	s.daH = 1
 	s.p2pH, s.p2pD = s.ih, s.ih
 	s.placed = map[string]bool{}
+	s.onP2P = map[string]bool{}
 }
 
 func (s *syncRun) loop(name string, f func(ctx context.Context)) {
@@ -273,6 +275,7 @@ func (s *syncRun) deliver(kind string, h uint64, via string) {
 	case "p2p":
 		s.c.Tr.Emit("Deliver", world.F{"node": "full", "kind": kind, "h": int(h), "via": via, "dah": 0})
 		s.placed[evKey(kind, h)] = true
+		s.onP2P[evKey(kind, h)] = true
 		if kind == "hdr" {
 			s.full.HStore.AppendItem(s.headerOf(h))
 			s.p2pH++
@@ -322,7 +325,11 @@ func (s *syncRun) settle() {
 				continue
 			}
 			if s.placed[evKey(kind, h)] {
-				s.c.Tr.Emit("Deliver", world.F{"node": "full", "kind": kind, "h": int(h), "via": "persistent", "dah": 0})
+				via := "persistent-da"
+				if s.onP2P[evKey(kind, h)] {
+					via = "persistent-p2p"
+				}
+				s.c.Tr.Emit("Deliver", world.F{"node": "full", "kind": kind, "h": int(h), "via": via, "dah": 0})
 				continue
 			}
 			s.deliver(kind, h, "da")
